@@ -296,6 +296,9 @@ func genLoopCase(r *kit.Rand, idx int) []string {
 			if rp == "" {
 				rp = "autogen"
 			}
+		} else if r.Chance(1, 8) {
+			ops = append(ops, genUDP(r, db, rp, names, &pid)) // the points reach the looping tasks through the UDP listener
+			return
 		}
 		ops = append(ops, fmt.Sprintf("%s %s %s %s", verb, kit.Esc(db), kit.Esc(rp), pts(n, wnames)))
 	}
@@ -352,6 +355,54 @@ func genLoopCase(r *kit.Rand, idx int) []string {
 	}
 	doWrite()
 	return ops
+}
+
+// genUDP: one `udp` op: 1-5 datagrams of 1-6 points (now and then 10-40), half of the ops at least two datagrams with points back to
+// back; a malformed line / an out-of-range time stamp (the datagram is dropped whole), comment and blank lines, a datagram without
+// any point; two out of three ops hold the first WritePoints call back until every datagram has been read.
+func genUDP(r *kit.Rand, db, rp string, names []string, pid *int64) string {
+	mode := kit.Pick(r, []string{"held", "held", "flow"})
+	nPk := r.Range(1, 5)
+	if r.Chance(1, 2) && nPk < 2 {
+		nPk = 2
+	}
+	var pks []string
+	for k := 0; k < nPk; k++ {
+		if r.Chance(1, 12) {
+			pks = append(pks, fmt.Sprintf("#%d", r.Intn(2))) // no point at all
+			continue
+		}
+		n := r.Range(1, 6)
+		if r.Chance(1, 10) {
+			n = r.Range(10, 40)
+		}
+		badAt := -1
+		if r.Chance(1, 7) {
+			badAt = r.Intn(n + 1)
+		}
+		var toks []string
+		for j := 0; j <= n; j++ {
+			if j == badAt {
+				toks = append(toks, fmt.Sprintf("!%d", r.Intn(len(badLines))))
+			}
+			if r.Chance(1, 10) {
+				toks = append(toks, fmt.Sprintf("#%d", r.Intn(2)))
+			}
+			if j == n {
+				break
+			}
+			*pid++
+			p := genPoint(r, *pid, kit.Pick(r, names))
+			p.pass = passOf(p)
+			ts := p.t
+			if r.Chance(1, 40) {
+				ts = maxNanoTime + 1 // outside the range models.CheckTime accepts: the line fails
+			}
+			toks = append(toks, pointTok(p)+"@"+fmt.Sprint(ts))
+		}
+		pks = append(pks, strings.Join(toks, ","))
+	}
+	return fmt.Sprintf("udp %s %s %s %s", kit.Esc(db), kit.Esc(rp), mode, strings.Join(pks, "&"))
 }
 
 func genCase(r *kit.Rand, idx int, tier string) []string {
@@ -485,6 +536,13 @@ func genCase(r *kit.Rand, idx int, tier string) []string {
 		flags := kit.Pick(r, []string{"-", "-", "-", "gz", "gz", "cons", "gz,cons", "gzhdr", "gztrunc"})
 		ops = append(ops, fmt.Sprintf("hwrite %s %s %s %s %s", db, rp, prec, strings.Join(toks, ","), flags))
 	}
+	doUDP := func() {
+		db, rp := kit.Pick(r, genDBs), kit.Pick(r, []string{"autogen", "r2", "", "autogen"})
+		if focus && r.Chance(2, 3) {
+			db, rp = "d1", "autogen"
+		}
+		ops = append(ops, genUDP(r, db, rp, names, &pid))
+	}
 	doStart(ids[0])
 	if focus {
 		for _, id := range ids[1:] {
@@ -500,6 +558,10 @@ func genCase(r *kit.Rand, idx int, tier string) []string {
 			ops = append(ops, "drain")
 			drained = true
 			running = map[string]*taskDef{}
+			continue
+		}
+		if tier != "racechild" && r.Chance(1, 14) {
+			doUDP() // (after a drain: every WritePoints call of the service is refused)
 			continue
 		}
 		if drained {
